@@ -173,6 +173,17 @@ def run(ctx):
                           re.search(r"if\s*\(\s*this\s*->\s*process\s*\.\s*notify\s*\)\s*tickit_watch_cancel\s*\(\s*t\s*,\s*this\s*->\s*process\s*\.\s*notify\s*\)", wc) and
                           re.search(r"process\s*\.\s*notify\s*=\s*NULL", pn))
 
+    # sigpipeViaInvoke: on_sigpipe_readable (self-pipe fallback) does not walk t->signals itself (no `this->next`)
+    # but hands each signal of its snapshot to tickit_evloop_invoke_sigwatches
+    sp = body_of(tk, "on_sigpipe_readable") or ""
+    sigpipe_via_invoke = bool(re.search(r"tickit_evloop_invoke_sigwatches\s*\(\s*t\s*,", sp) and
+                              not re.search(r"this\s*->\s*next", sp))
+    # sigpipeClearsInSnapshot: t->signal.pending is emptied between the two sigprocmask calls, i.e. atomically with
+    # taking the snapshot (recorded only; the model has no variant for anything else)
+    m1 = [m.start() for m in re.finditer(r"sigprocmask\s*\(", sp)]
+    m2 = re.search(r"sigemptyset\s*\(\s*&\s*t\s*->\s*signal\s*\.\s*pending\s*\)", sp)
+    sigpipe_clear_in_snapshot = bool(len(m1) == 2 and m2 and m1[0] < m2.start() < m1[1])
+
     def lst(pairs):
         return "[" + ", ".join(f"({a}, {b})" for a, b in pairs) + "]"
 
@@ -204,8 +215,9 @@ def run(ctx):
     body += f"def procSnapshot : Bool := {b(proc_snapshot)}\n"
     body += f"def laterCancelMarks : Bool := {b(later_marks)}\n"
     body += f"def processLinked : Bool := {b(process_linked)}\n"
+    body += f"def sigpipeViaInvoke : Bool := {b(sigpipe_via_invoke)}\n"
     body += "end Tickit.Gen.EvLoop\n"
     write("EvLoop", body)
     info["evloop"] = {"masks": masks, "timersPop": timers_pop, "errnoSaved": errno_saved, "pendingInit": pending_init,
-                      "reventsCleared": revents_cleared, "invokeTypeSaved": invoke_type_saved, "sigSnapshot": sig_snapshot, "procSnapshot": proc_snapshot, "laterCancelMarks": later_marks, "processLinked": process_linked, "insertCmp": insert_cmp, "dueCmp": due_cmp,
+                      "reventsCleared": revents_cleared, "invokeTypeSaved": invoke_type_saved, "sigSnapshot": sig_snapshot, "procSnapshot": proc_snapshot, "laterCancelMarks": later_marks, "processLinked": process_linked, "sigpipeViaInvoke": sigpipe_via_invoke, "sigpipeClearInSnapshot": sigpipe_clear_in_snapshot, "insertCmp": insert_cmp, "dueCmp": due_cmp,
                       "unreadable": notes}
